@@ -52,6 +52,8 @@ class State:
         self.value_of = {}  # id(program) -> components, to attribute a registration to its script entry
         self.evaluated = []  # aggregate of every fitness invocation, in order
         self.presented = 0  # individuals handed to tracker.evaluate
+        self.registered = []  # every individual the tracker registered, in order
+        self.seeded = []  # aggregates of already-evaluated individuals handed to a search as (part of) its initial population
         self.shadow = False  # True while ANOTHER problem over the same fitness function evaluates (history; not part of the script)
         # drivers in which every individual is registered right after its own evaluation (no evaluation ahead of the tracker)
         self.sync = cfg["driver"] in ("rs", "hc", "opo", "gp") or (cfg["driver"] == "direct" and not any(cfg["pre_evaluate"]))
@@ -70,6 +72,7 @@ class State:
         ctx = self.ctx
         cfg = self.cfg
         self.n_reg += 1
+        self.registered.append(ind)
         f = ind.get_fitness(problem)
         comps = list(f.fitness_components)
         a = self.agg(comps)
@@ -140,6 +143,8 @@ def gen(H, tier):
             "pop": 2 + H.draw(7), "hc_n": 1 + H.draw(5), "budget": 1 + H.draw(min(n, 40)),
             "batches": [1 + H.draw(5) for _ in range(8)],
             "other_problem": bool(H.draw(3) == 2),
+            "rtype": H.pick(["float", "float", "float", "int", "np.float64", "np.int64", "np.uint8", "np.uint64"]),
+            "seeded_restart": bool(H.draw(5) == 4),
             "resume": H.pick([None, None, None, "again", "rs", "hc", "opo", "gp"]), "resume_extra": H.draw(12)}
 
 
@@ -159,21 +164,38 @@ def run(ctx):
     rep = make_intrep()
     rnd = SimRandom(ctx, ctx.H.pick(["uniform", "edge", "native"]))
 
+    cur = [st]  # the model of the tracker that is currently searching
+    # the Python / numpy type in which the fitness function hands back its numbers (the library converts with float())
+    flat = [x for h_ in cfg["history"] for x in h_]
+    rtype = cfg["rtype"]
+    if (rtype in ("int", "np.int64") and not all(float(x).is_integer() for x in flat)) or \
+            (rtype in ("np.uint8", "np.uint64") and not all(float(x).is_integer() and 0 <= x <= 255 for x in flat)):
+        rtype = "float"
+
+    def returned(x):
+        if rtype == "float":
+            return x
+        if rtype == "int":
+            return int(x)
+        import numpy as np
+
+        return getattr(np, rtype[3:])(x)
+
     def ff_single(p):
         if st.shadow:
-            return st.script(p.v * 7 + 3)[0]
+            return returned(st.script(p.v * 7 + 3)[0])
         v = st.script(st.count)[0]
         st.count += 1
-        st.evaluated.append(st.agg([v]))
-        return v
+        cur[0].evaluated.append(st.agg([v]))
+        return returned(v)
 
     def ff_multi(p):
         if st.shadow:
-            return list(st.script(p.v * 7 + 3))
+            return [returned(x) for x in st.script(p.v * 7 + 3)]
         v = list(st.script(st.count))
         st.count += 1
-        st.evaluated.append(st.agg(v))
-        return v
+        cur[0].evaluated.append(st.agg(v))
+        return [returned(x) for x in v]
 
     if cfg["multi"]:
         problem = MultiObjectiveProblem(list(cfg["minimize"]), ff_multi, aggregate_fitness=(lambda comps: st.agg(comps)))
@@ -249,6 +271,32 @@ def run(ctx):
                 a2 = algo2(problem=problem, budget=EvaluationBudget(cfg["budget"] + cfg["resume_extra"]), representation=rep, random=rnd, tracker=tracker, **kw2)
                 result = a2.search()
                 driver = f"{resume}-resumed-after-{driver}"
+            if cfg["seeded_restart"] and st.registered and not ctx.violations:
+                # F13 (history): a SECOND GP search with its own fresh tracker starts from individuals that survived the first one
+                # (they are already evaluated); its reported best must be at least as good as what it was seeded with
+                from geneticengine.algorithms.gp.structure import PopulationInitializer
+
+                st2 = State(ctx, {**cfg, "driver": "gp"})
+                seeds = list(dict.fromkeys(st.registered))[-cfg["pop"]:][: 1 + ctx.H.draw(cfg["pop"])]
+
+                class Seeded(PopulationInitializer):
+                    def initialize(self, problem, representation, random, target_size):
+                        for ind in seeds[:target_size]:
+                            st2.seeded.append(st2.agg(list(ind.get_fitness(problem).fitness_components)))
+                            yield ind
+                        for _ in range(max(0, target_size - len(seeds))):
+                            yield Individual(representation.create_genotype(random), representation)
+
+                T = MultiObjectiveProgressTracker if cfg["multi"] else SingleObjectiveProgressTracker
+                tracker = T(problem, SequentialEvaluator(), recorders=[Probe(st2)])
+                cur[0] = st2
+                st = st2
+                ctx.faults["carry_over"] += 1
+                ctx.stat("seeded_restarts")
+                a3 = GeneticProgramming(problem=problem, budget=EvaluationBudget(1 + ctx.H.draw(3 * cfg["pop"])), representation=rep, random=rnd,
+                                        tracker=tracker, population_size=cfg["pop"], population_initializer=Seeded())
+                result = a3.search()
+                driver = "gp-seeded-with-survivors"
     except Exception as e:
         from ..world import short_tb
 
@@ -268,6 +316,11 @@ def run(ctx):
             ctx.violate(f"C12/best/single/worse-than-an-evaluated-individual/{driver}",
                         f"at the end of {driver} the tracker's best has aggregate {st.agg(list(b.get_fitness(problem).fitness_components))} "
                         f"but an individual with aggregate {top} was evaluated")
+    if st.seeded and result is not None and result != "n/a":
+        ra = st.agg(list(result.get_fitness(problem).fitness_components))
+        if ra < max(st.seeded):
+            ctx.violate(f"C12/search-return/{'multi' if cfg['multi'] else 'single'}/{driver}/worse-than-its-seeded-individuals",
+                        f"a GP search seeded with already-evaluated individuals (best aggregate {max(st.seeded)}) returned an individual with aggregate {ra}")
     if driver != "direct":
         # search() must return the very individual the tracker reports as best, and it must be the best evaluated
         if cfg["multi"]:
